@@ -18,7 +18,35 @@ def run(ctx: Ctx) -> None:
     t16_losses.run_pointwise(ctx)
     t16_losses.run_overlap(ctx)
     t16_losses.run_weight_shapes(ctx)
+    t16_losses.run_definitions(ctx)
+    ctx.floor("T16.definition", 2)
     ctx.floor("T16.mask", 6)
     ctx.floor("T16.reduction", 6)
     e4(ctx, ["deepali.losses.functional", "deepali.losses.image", "deepali.losses.base"],
        only=lambda fi: not (fi.module.name == "deepali.losses.functional" and fi.qualname.split(".")[0] in FLOW_FUNCS))
+
+
+def mutants(prog):
+    from .common import source_sub
+    L = "deepali.losses.functional"
+    specs = [
+        ("masked mean counts unexpanded mask", L, "reduce_loss", "numel = mask.expand_as(loss).sum()", "numel = mask.sum()", "T16."),
+        ("masked mean divides by all", L, "reduce_loss", "numel = mask.expand_as(loss).sum()", "numel = loss.numel()", "T16."),
+        ("mean is sum", L, "reduce_loss", "return loss.mean() if reduction == 'mean' else loss.sum()", "return loss.sum()", "T16."),
+        ("none reduced", L, "reduce_loss", "if reduction == 'none':\n        return loss", "if reduction == 'none':\n        return loss.sum()", "T16."),
+        ("mask not applied", L, "masked_loss", "loss = loss.mul(mask)", "loss = loss", "T16."),
+        ("ssd not squared", L, "ssd_loss", "loss = input.sub(target).square()", "loss = input.sub(target).abs()", "T16."),
+        ("ssd mask dropped in reduce", L, "ssd_loss", "loss = reduce_loss(loss, reduction, mask)", "loss = reduce_loss(loss, reduction)", "T16."),
+        ("norm multiplies", L, "ssd_loss", "loss = loss.div_(norm)", "loss = loss.mul_(norm)", "T16."),
+        ("elementwise mask reduce", L, "elementwise_loss", "loss = reduce_loss(loss, reduction, mask)", "loss = reduce_loss(loss, reduction)", "T16."),
+        ("mse is not ssd/mean", L, "mse_loss", "return ssd_loss(input, target, mask=mask, norm=norm, reduction=reduction)", "return ssd_loss(input, target, norm=norm, reduction=reduction)", "T16."),
+        ("dice factor 2", L, "dice_score", "loss = intersection.mul_(2).add_(epsilon).div(denominator.add_(epsilon))", "loss = intersection.add_(epsilon).div(denominator.add_(epsilon))", "T16."),
+        ("dice loss reduction first", L, "dice_loss", "loss = reduce_loss(1 - dsc, reduction)", "loss = 1 - reduce_loss(dsc, reduction)", "T16."),
+        ("dice weight dropped", L, "dice_score", "intersection = dot_channels(y_pred, y, weight=weight)", "intersection = dot_channels(y_pred, y)", "T16."),
+        ("tversky roles swapped", L, "tversky_index", "fps = dot_channels(y_pred, 1 - y, weight=weight).mul_(alpha)\n    fns = dot_channels(1 - y_pred, y, weight=weight).mul_(beta)", "fps = dot_channels(y_pred, 1 - y, weight=weight).mul_(beta)\n    fns = dot_channels(1 - y_pred, y, weight=weight).mul_(alpha)", "T16."),
+        ("tversky fn uses prediction", L, "tversky_index", "fns = dot_channels(1 - y_pred, y, weight=weight).mul_(beta)", "fns = dot_channels(1 - y, y_pred, weight=weight).mul_(beta)", "T16."),
+        ("tversky loss not one minus", L, "tversky_loss", "loss = one.sub(ti)", "loss = ti", "T16."),
+    ]
+    for name, mod, fn, old, new, expect in specs:
+        ov = source_sub(prog, mod, fn, old, new)
+        yield (name if ov is not None else name + " [spec does not apply]", ov, expect)
